@@ -33,7 +33,7 @@ FINDER_BOUNDS = {
     'find_related_text': 'every operator over about 40 known selections of a 9-character text',
     'find_handles_setops': 'every pair of duplicate-free sequences of length <= 4 over 5 handles',
     'find_reindex_ids': 'every subset of 6 annotations removed, then reindex()',
-    'find_store_consistency': '12 annotations over all nine selector kinds, 3 index configurations, every single and double annotation removal, 7 other removals',
+    'find_store_consistency': '12 annotations over all nine selector kinds, 3 index configurations, every single and double annotation removal, 7 other removals, 3 protect_text histories',
     'find_segmentation': 'every set of <= 3 of 8 selections over a 10-character text, milestone intervals 0/2/3',
     'find_utf8': '8 texts of 1-4 byte codepoints, 5 milestone intervals, every position and every sub-selection',
     'find_index_walk': 'every range over a 9-character text, forward and backward, 11 known selections',
